@@ -6,9 +6,9 @@ translate:  tools/translate/severity.py -> Par/Gen_Severity.v (the PipeSignal fr
 prove:      coq/theories/Properties_C21.v (termination under every schedule, progress, containment
             of every set of workers dying at any point: between records or inside a record)
 correspond: the extracted state machine (Proc/Run.v, fair schedule) vs the real binary with the
-            guarded fault hook VERIF_CHILD_FAULT=<file>:<k>:<sig|exit|midmsg> of
+            guarded fault hook VERIF_CHILD_FAULT=<file>:<k>:<sig|exit|midmsg|sighold|exithold> of
             cli/processexecutor.cpp: generated projects, every file x every crash point x three
-            fault modes x job counts 2-4; findings (multiset), internal-error reports and exit
+            fault modes (+ the two reap-before-EOF modes at k = 0) x job counts 2-4; findings (multiset), internal-error reports and exit
             status of the real run against the model's prediction for the same fault
 search:     the property itself is evaluated on every real run (other files' findings complete,
             one cppcheckError naming the crashed file, exit status = --error-exitcode)
@@ -34,7 +34,7 @@ SNIPPETS = [
     "int %(f)s(int x) {\n  int z = 0;\n  return x / z;\n}\n",
 ]
 CLEAN = "int %(f)s(int x) {\n  return x + 1;\n}\n"
-MODES = {"sig": (1, 11), "exit": (2, 3), "midmsg": (3, 3)}
+MODES = {"sig": (1, 11), "exit": (2, 3), "midmsg": (3, 3), "sighold": (1, 11), "exithold": (2, 3)}
 
 
 def sha(x):
@@ -99,7 +99,7 @@ def check(run, replay):
         "Coq 8.16.1 kernel (coqc); vm_compute only in the Examples",
         "extraction: Require Extraction + ExtrOcamlBasic only; ocaml/driver.ml",
         "tools/translate/severity.py (PipeSignal enum and the type check of handleRead)",
-        "hook commit 49cbcca in /repo (guarded): VERIF_CHILD_FAULT makes the worker of a chosen file raise SIGSEGV / _exit(3) / write 3 bytes of the next record and _exit(3) when it is about to send its (k+1)-th finding or its CHILD_END record",
+        "hook commits 49cbcca + 97219f3 in /repo (guarded): sighold/exithold additionally fork a grandchild that keeps the pipe open for 1.5 s so that waitpid reports the worker before end-of-file (the machine is then run with its reap-first schedule); VERIF_CHILD_FAULT makes the worker of a chosen file raise SIGSEGV / _exit(3) / write 3 bytes of the next record and _exit(3) when it is about to send its (k+1)-th finding or its CHILD_END record",
         "modelled, not verified: ProcessExecutor::check (fork, select, waitpid bookkeeping), handleRead (frame parsing, exit(EXIT_FAILURE) branches), reportInternalChildErr; "
         "pipe reads are blocking and the worker's 1-byte and 4-byte writes are atomic, so the parent's behaviour on a pipe is a function of the bytes the worker wrote before it ended",
         "not modelled: hasToLog's duplicate/suppression filter on the parent side (C15), REPORT_SUPPR payload parsing beyond the field count (parseLine can throw), "
@@ -141,12 +141,15 @@ def check(run, replay):
             for fi, fname in enumerate(files):
                 nf = len(per_file[fname])
                 for k in range(0, nf + 2):
-                    for mode in ("sig", "exit", "midmsg"):
+                    # hold modes (worker reaped before end-of-file on its pipe; 1.5 s each): every file of the
+                    # finding-free project, the first file of the others (all files in the thorough tier), k = 0
+                    hold = ("sighold", "exithold") if k == 0 and (pn == 0 or fi == 0 or not quick) else ()
+                    for mode in ("sig", "exit", "midmsg") + hold:
                         jobs = rng.choice([2, 3, 4])
                         fault = "%s:%d:%s" % (fname, k, mode)
                         rc, finds, noise = run_real(d, files, jobs, fault)
                         # model prediction for the same fault
-                        fields = ["c21", jobs, len(files)]
+                        fields = ["c21", jobs, mode.endswith("hold"), len(files)]
                         for gi, g in enumerate(files):
                             mm, code = MODES[mode] if gi == fi else (0, 0)
                             fields += [mm, k if gi == fi else 0, code, 1 if per_file[g] else 0, len(per_file[g])] + [x.encode("latin-1") for x in per_file[g]]
